@@ -110,10 +110,22 @@ def generate(cls, rng):
     for _ in range(n):
         r = rng.random()
         if r < 0.18:
-            ops.append(["warm", rng.choice([1, 2, 2]),
+            # a partial iteration; with keep=True the iterator stays alive
+            # (suspended) while later queries run -- on any twin, also the
+            # uncached one
+            ops.append(["warm", rng.choice([0, 1, 2, 2]),
                         rng.choice([1, 2, 5, 9, 10, 11, 15, 20, 21, 30]),
                         rng.random() < 0.5])
-        elif r < 0.26 and is_rule:
+        elif r < 0.24:
+            # resume a suspended iterator, or a live xafter() generator
+            if rng.random() < 0.5:
+                ops.append(["resume", rng.choice([0, 1, 2]),
+                            rng.choice([1, 2, 5, 11])])
+            else:
+                ops.append(["xlive", rng.choice([0, 1, 2]), RL.gen_ref(rng),
+                            rng.choice([None, 2, 5, 12]),
+                            rng.random() < 0.5])
+        elif r < 0.32 and is_rule:
             name, vals = rng.choice(REPLACE_CHOICES)
             ops.append(["replace", rng.choice([0, 1, 2]), name,
                         rng.choice(vals)])
@@ -209,6 +221,22 @@ def execute(cls, scenario, ctx):
                 if not keep:
                     clients[t].do(["close", h])
             guarded(warm, op)
+        elif op[0] == "resume":
+            t, k = op[1], op[2]
+            hs = sorted(h for h in clients[t].its)
+            if hs:
+                h = hs[len(hs) // 2]
+                ctx.probe("suspended_iterator_resumed")
+                guarded(lambda: clients[t].do(["next", h, k]), op)
+        elif op[0] == "xlive":
+            t = op[1]
+            nwarm += 1
+            h = "x%d" % nwarm
+
+            def xl():
+                clients[t].do(["xiter", h, op[2], op[3], op[4]])
+                clients[t].do(["next", h, 1])
+            guarded(xl, op)
         elif op[0] == "replace":
             t, name, val = op[1], op[2], op[3]
             spec2 = copy.deepcopy(tspec)
